@@ -26,7 +26,7 @@ spec fn is_window(s: Seq<Table>, w: Seq<Table>) -> bool { w.len() > 0 && exists|
 spec fn ids_of(w: Seq<Table>) -> Set<u64> { w.map_values(|t: Table| t.id).to_set() }
 spec fn shares_key(t: Table, u: Table) -> bool { t.lo <= u.hi && u.lo <= t.hi }
 
-/// table::util::aggregate_run_key_range (same body as Run::aggregate_key_range, unit run_select C01.30): first min .. last max
+/// table::util::aggregate_run_key_range: first min .. last max (contract proved in unit run_select, C01.30)
 #[verifier::external_body]
 fn aggregate_run_key_range(tables: &[Table]) -> (r: KeyRange) requires tables@.len() > 0 ensures r.lo == tables@[0].lo, r.hi == tables@.last().hi { unimplemented!() }
 impl Run {
